@@ -662,3 +662,27 @@ def _polyline_extent(repo, ob, failure):
             if got != want:
                 return {"input": doc, "observed": "viewBox %s" % got, "expected": "viewBox %s (points 1,2 30,4 5,60 grown by the border 5)" % want}
     return None
+
+
+@generator("C09.point.")
+@generator("C11.native.")
+def _phantom_placement(repo, ob, failure):
+    """<point> and <box> (svgdx's invisible helpers) are positioned like any other element: a sibling placed
+    beside them shows where they ended up"""
+    import re as _re
+    A = '<rect id="a" xy="10 20" wh="30 40"/>'
+    cases = [('<point id="p" xy="#a@br"/>', (42, 58)), ('<point id="p" cxy="#a@br"/>', (42, 58)), ('<point id="p" cxy="#a@br" dxy="3 4"/>', (45, 62)),
+             ('<point id="p" x2="40" y2="60"/>', (42, 58)),
+             ('<box id="p" xy="#a@br" wh="5"/>', (47, 60.5)), ('<box id="p" xy="#a@br" xy-loc="br" wh="5"/>', (42, 55.5)),
+             ('<box id="p" cxy="#a@c" wh="6"/>', (30, 38)), ('<box id="p" xy2="40 60" wh="6"/>', (42, 55)),
+             ('<rect id="p" cxy="#a@c" wh="6"/>', (30, 38))]
+    for el, (x, y) in cases:
+        doc = "<svg>" + A + el + '<rect id="q" xy="#p|h 2" wh="4"/></svg>'
+        r = run_svgdx(repo, doc)
+        if r["rc"] != 0:
+            continue
+        m = _re.search(r'<rect id="q"([^>]*)>', r["out"])
+        got = dict((k, float(v)) for k, v in _re.findall(r'\b(x|y)="([-0-9.]+)"', m.group(1))) if m else {}
+        if abs(got.get("x", 1e9) - x) > 0.002 or abs(got.get("y", 1e9) - y) > 0.002:
+            return {"input": doc, "observed": "the sibling placed beside it lands at %r" % got, "expected": "x=%g y=%g" % (x, y)}
+    return None
